@@ -41,6 +41,8 @@ fn data_type(ty: &str) -> DataType {
         "decimal" => DataType::Decimal(None, None),
         "date" => DataType::Date,
         "blob" => DataType::Blob,
+        "interval" => DataType::Interval,
+        "timestamp" => DataType::Timestamp,
         other => panic!("unknown type {other}"),
     }
 }
@@ -74,6 +76,8 @@ fn value(v: &Value, ty: &DataType) -> DataValue {
                 DataType::Decimal(_, _) => DataValue::Decimal(t.parse().unwrap()),
                 DataType::Date => DataValue::Date(t.parse().unwrap()),
                 DataType::Blob => DataValue::Blob(t.parse().unwrap()),
+                DataType::Interval => DataValue::Interval(t.parse().unwrap()),
+                DataType::Timestamp => DataValue::Timestamp(t.parse().unwrap()),
                 _ => panic!("cannot parse {t} as {ty:?}"),
             }
         }
